@@ -19,10 +19,12 @@ def stretched_gates(gates, *, suffix=None, update=False):
     If an idle gate is passed in via gates, a stretched gate for its parent gate is
     automatically generated.
     """
+    if suffix is None:
+        suffix = ""
     new_gates = {}
     for gate in gates.values():
         name = gate.name
-        if name in new_gates:
+        if name + suffix in new_gates:
             # We already processed the idle gate for this gate,
             # and generated the parent gate.
             continue
@@ -33,12 +35,15 @@ def stretched_gates(gates, *, suffix=None, update=False):
         else:
             add_idle = False
 
-        if suffix is None:
-            suffix = ""
         new_name = gate.name + suffix
 
         parameters = gate.parameters.copy()
-        parameters.append(Parameter("stretch", ParamType.FLOAT))
+        # Arguments are bound by parameter name, so the new parameter
+        # needs a name the parent does not already use.
+        stretch_name = "stretch"
+        while any(param.name == stretch_name for param in parameters):
+            stretch_name += "_"
+        parameters.append(Parameter(stretch_name, ParamType.FLOAT))
 
         if gate.ideal_unitary:
             # Drop the last argument, which is the stretch factor
